@@ -71,7 +71,7 @@ def star_collection(rng, max_vertices):
             return realise(rng, m, edges)
 
 def collection(rng, maxn, maxk, kind=None):
-    kind = kind or rng.choice(["random", "random", "sparse", "star", "star", "star+", "path", "commuting", "union", "2local"])
+    kind = kind or rng.choice(["random", "random", "sparse", "star", "star", "star+", "star-dep", "star-dep", "clo-dep", "path", "commuting", "union", "2local"])
     if kind == "random":
         n = rng.randint(1, maxn)
         return [rs(rng, n) for _ in range(rng.randint(1, maxk))]
@@ -97,6 +97,38 @@ def collection(rng, maxn, maxk, kind=None):
         elif r < 0.35:
             gs.append("I" * len(gs[0]))
         rng.shuffle(gs)
+        return gs
+    if kind == "star-dep":
+        # many single legs (+ optional long leg) plus members of the closure that are products of >= 3 generators:
+        # dependents whose dependency avoids some of the legs
+        singles = rng.randint(2, min(5, max(2, maxn - 1)))
+        legs = [1] * singles + ([rng.randint(2, 3)] if rng.random() < 0.3 and singles + 3 <= maxn else [])
+        m, edges = star_edges(legs)
+        if m > maxn:
+            m, edges = star_edges([1] * (maxn - 1))
+        gs = realise(rng, m, edges)
+        base = list(gs)
+        for _ in range(rng.randint(1, 3)):
+            k = rng.choice([3, 3, 3, 5, 2])
+            sub = rng.sample(base, min(k, len(base)))
+            acc = sub[0]
+            for t in sub[1:]:
+                acc = mulstr(acc, t)
+            C = O.closure_strs(base) if len(base[0]) <= 6 else None
+            if acc not in gs and acc != "I" * len(acc) and (C is None or acc in C):
+                gs.append(acc)
+        if rng.random() < 0.5:
+            rng.shuffle(gs)
+        return gs
+    if kind == "clo-dep":
+        gs = collection(rng, min(maxn, 5), max(2, maxk - 3), rng.choice(["random", "star", "star+", "path", "2local"]))
+        gs = O.pad(gs)
+        C = sorted(O.closure_strs(gs) - set(gs))
+        for _ in range(rng.randint(1, 3)):
+            if C:
+                gs.append(rng.choice(C))
+        if rng.random() < 0.7:
+            rng.shuffle(gs)
         return gs
     if kind == "path":
         m = rng.randint(min(2, maxn), maxn)
